@@ -73,6 +73,7 @@ pub fn cmd_pwstr(args: &[String]) {
         }
         let want = render(&v["segs"], &salt, &hash);
         rep.evaluations += 1;
+        rep.case(&want);
         // libsodium accepts the string the specification prescribes, for the right password only
         if !so_verify(&want, &pw) { fail!("libsodium rejects the prescribed string for the right password", {"string": want}); }
         if so_verify(&want, &wrong) { fail!("libsodium accepts a wrong password (harness error)", {"string": want}); }
